@@ -44,7 +44,7 @@ def scenarios(tier):
         out.append({'name': f'polygons[{C06.GRID_CONFIGS[gi][0]}]', 'fn': 'scn_polygons', 'kwargs': {'gi': gi}})
         if gi not in (11, 12):
             out.append({'name': f'holes keep their slot[{C06.GRID_CONFIGS[gi][0]}]', 'fn': 'scn_validity', 'kwargs': {'gi': gi}})
-    for mi in (1, 3, 6, 10):
+    for mi in (1, 3, 4, 6, 10):
         out.append({'name': f'polygons[UGRID {C06.MESH_CONFIGS[mi][0]}]', 'fn': 'scn_mesh', 'kwargs': {'mi': mi}})
     for ci, cfg in enumerate(CENTRE_CONFIGS):
         out.append({'name': f'face_centres[{cfg[0]} {cfg[1]}]', 'fn': 'scn_centres', 'kwargs': {'ci': ci}})
